@@ -1,9 +1,26 @@
 #!/bin/sh
-# regenerate Gen from the (clean) repository before committing /verif
+# regenerate Gen from the (clean) repository and refresh stale evidence before committing /verif
 set -e
 cd /verif
 test -z "$(git -C /repo status --porcelain)" || { echo "/repo not clean"; exit 1; }
 bin/verifextract -repo /repo -out lean/SamVerif/Gen -report work/x.json >/dev/null
+head=$(git -C /repo log --format=%h -1)
+# evidence written while a seeded change was applied (or by a failing run) must not be committed: re-run those checks
+for f in evidence/*.json; do
+  id=$(basename "$f" .json)
+  stale=$(python3 - "$f" "$head" <<'PY'
+import json,sys
+e=json.load(open(sys.argv[1]))
+c=e.get('coverage',{})
+bad = e.get('violations',0) or c.get('discharged')!=c.get('obligations') or 'dirty' in str(e.get('repo','')) or e.get('tier')!='quick'
+print('1' if bad else '0')
+PY
+)
+  if [ "$stale" = "1" ]; then
+    echo "refreshing evidence of $id"
+    ./check "$id" --tier quick | tail -1
+  fi
+done
 git add -A
 git commit -qm "$1"
 git log --oneline | head -1
